@@ -24,6 +24,7 @@ MARKUP_CFGS = [
     ('wrap-string', {'text': 'line one\nline two'}),
     ('context+bem', {'context': {'name': 'ul', 'attributes': {'class': 'blk'}}, 'options': {'bem.enabled': True}}),
     ('slim+maxRepeat', {'syntax': 'slim', 'maxRepeat': 3}),
+    ('context-without-attributes+bem', {'context': {'name': 'div'}, 'options': {'bem.enabled': True, 'comment.enabled': True}}),
     ('vue+formatLeaf', {'syntax': 'vue', 'options': {'output.formatLeafNode': True, 'output.reverseAttributes': True,
                                                      'output.compactBoolean': True, 'output.selfClosingStyle': 'xhtml'}}),
 ]
